@@ -342,7 +342,7 @@ fn run_sub<K: HKey>(sr: &SubRun, slice: (u64, u64), seed: u64, res: &mut WorkerR
         let opsq = ops::seq_of(&alpha, sr.depth, idx);
         let vs = run_case::<K>(&sr.cfg, &universe, &opsq, res, false);
         done += 1;
-        if done == 1 + slice.0 {
+        if idx % 997 == 123 && res.samples.len() < 2 {
             res.sample(case_json::<K>(&sr.cfg, &universe, &opsq));
         }
         for v in vs {
